@@ -368,7 +368,12 @@ def rule_position(toks):
                    "{ let mut vpos: Option<usize> = None; for vi in 0..$X.len() { let $p = &$X[vi]; if $E { vpos = Some(vi); break; } } vpos }")
 
 
-NAMED_RULES = {"Rposition": rule_position, "Rany": rule_any, "Ritermut": rule_itermut, "Rmapconcat": rule_mapconcat, "Rextend": rule_extend, "Rassert": rule_assert, "Rconcat": rule_concat, "Rbytes": rule_bytes, "R0": rule_R0, "R1": rule_R1, "R5": rule_R5, "R6": rule_R6}
+def rule_nameiter(toks):
+    """give `for p in X.iter()` loops a ghost iterator name so invariants can refer to the position"""
+    return rewrite(toks, "for $p:ident in $X:chain.iter() {", "for $p in vit: $X.iter() {")
+
+
+NAMED_RULES = {"Rnameiter": rule_nameiter, "Rposition": rule_position, "Rany": rule_any, "Ritermut": rule_itermut, "Rmapconcat": rule_mapconcat, "Rextend": rule_extend, "Rassert": rule_assert, "Rconcat": rule_concat, "Rbytes": rule_bytes, "R0": rule_R0, "R1": rule_R1, "R5": rule_R5, "R6": rule_R6}
 
 
 def loops(toks):
